@@ -42,10 +42,10 @@ BOUNDS = [
 ]
 STUBS = [
     "Balancer.__run_pipeline -> pure function of (row token, threshold): solved = confidence(token) >= threshold, stats = {reaction_cnt, confident_cnt}",
-    "os / open in synrbl.SynUtils.batching -> in-memory file system: POSIX truncate-on-open, append-on-write, crash between write() calls",
+    "os / open in synrbl.SynUtils.batching -> in-memory file system with nested directories: POSIX truncate-on-open, append-on-write, recursive walk, crash between write() calls",
     "traceback.print_exc in synrbl.balancing -> no-op",
 ]
-OUTSIDE = ["column-name configuration changes (same mechanism as the threshold: the key hashes only the rows)", "concurrent runs sharing the directory", "partial write() of a single chunk (crash granularity = one write call of json.dump)"]
+OUTSIDE = ["more than one level of nesting of cache directories", "column-name configuration changes (same mechanism as the threshold: the key hashes only the rows)", "concurrent runs sharing the directory", "partial write() of a single chunk (crash granularity = one write call of json.dump)"]
 ASSUMPTIONS = STUBS
 
 
@@ -106,17 +106,27 @@ class _Path:
     abspath = staticmethod(lambda p: p)
 
 
+def _walk(top):
+    subs = sorted(p for p in FS.dirs if _real_os.path.dirname(p) == top and p != top)
+    files = sorted(_real_os.path.basename(f) for f in FS.files if _real_os.path.dirname(f) == top)
+    yield top, [_real_os.path.basename(x) for x in subs], files
+    for x in subs:
+        for item in _walk(x):
+            yield item
+
+
 class _OS:
     path = _Path
 
     @staticmethod
     def makedirs(p, *a, **k):
-        FS.dirs.add(p)
+        while p not in ("", "/"):
+            FS.dirs.add(p)
+            p = _real_os.path.dirname(p)
 
     @staticmethod
     def walk(d):
-        files = sorted(_real_os.path.basename(f) for f in FS.files if _real_os.path.dirname(f) == d)
-        yield d, [], files
+        return _walk(d)
 
 
 class _NoTB:
@@ -166,14 +176,17 @@ def _install():
 _B = None
 
 
-def _balancer(thr):
+CACHE_DIRS = ("/cache", "/cache/strict")
+
+
+def _balancer(thr, cdir="/cache"):
     global _B
     pipe.install()
     if _B is None:
         _B = pipe.balancer()
     b = _B
     b.cache = True
-    b.cache_dir = "/cache"
+    b.cache_dir = cdir
     b.confidence_threshold = thr
     def run(rows, stats=None):
         CALLS[0] += 1
@@ -217,7 +230,7 @@ def h_history(l0: int, l1: int, l2: int, t0: int, t1: int, t2: int, ca: int, cb:
     for i in range(nruns):
         rows_tok, bs = LAYOUTS[ls[i]]
         thr = ts[i]
-        b = _balancer(thr)
+        b = _balancer(thr, CACHE_DIRS[fixed.get("d%d" % i, 0)])
         data = [{"reaction": t} for t in rows_tok]
         # what the same call returns without a cache
         want_rows = []
@@ -278,6 +291,11 @@ def plan(tier):
                 continue
             P.append(Part(H + "h_history", {"runs": 2, "fix": {"l0": l0, "kill_run": -1, "s0": s0, "s1": s1, "t0": 0, "t1": 0}},
                           "history[2 runs|l0=%d,stats=%s%s]" % (l0, "y" if s0 else "n", "y" if s1 else "n"), group="history", timeout=1800, path_timeout=120))
+    # a second cache kept in a sub-directory of the first (run 1 writes cache/strict, run 2 uses cache, and reverse)
+    for l0 in ((0, 1, 4) if tier != "thorough" else range(nl)):
+        for d0, d1 in ((1, 0), (0, 1)):
+            P.append(Part(H + "h_history", {"runs": 2, "fix": {"l0": l0, "kill_run": -1, "s0": True, "s1": True, "t0": 0, "t1": 0, "d0": d0, "d1": d1}},
+                          "nested[2 runs|l0=%d,dirs=%s then %s]" % (l0, CACHE_DIRS[d0], CACHE_DIRS[d1]), group="nested", timeout=1800, path_timeout=120))
     # histories with a killed run: crash point symbolic (every write() of the entry), thresholds/confidences fixed
     calm = {"t0": 0, "t1": 0, "t2": 0, "ca": 1, "cb": 1, "cc": 1, "s0": True, "s1": True, "s2": True}
     pairs = [(a, b) for a in range(nl) for b in range(nl)]
